@@ -64,16 +64,21 @@ structure Stream (α X : Type) where
 def Stream.init (w : Nat) (cs : Option Nat) : Stream α X := ⟨0, w, cs, none, none, CQ.init w⟩
 def Stream.fit (k : X → X → α) (s : Stream α X) (xs : List X) : Stream α X :=
   { s with ref := some xs, pre := some (expectedK k (s.chunkSize.getD xs.length) xs) }
-/-- `update`: `none` until the window is full, then the batch value on the raw queue buffer -/
+/-- `update` on an unfitted detector raises MissingFitError BEFORE anything is counted or stored
+(streaming/base.py: `_common_checks()` precedes `num_instances += 1`) -/
+def Stream.updateErr (s : Stream α X) : Option Err := if s.ref.isNone then some .missingFit else none
+/-- `update`: unfitted → nothing changes (see `updateErr`); otherwise `none` until the window is
+full, then the batch value on the raw queue buffer -/
 def Stream.update (k : X → X → α) (s : Stream α X) (v : X) : Option α × Stream α X :=
-  match s.q.enqueue v with
-  | .error _ => (none, s)
-  | .ok (_, q) =>
-    let s := { s with n := s.n + 1, q := q }
-    if s.n < s.window then (none, s)
-    else match s.ref with
-      | none => (none, s)
-      | some r => (some (mmd k s.chunkSize r (q.raw.filterMap id) s.pre), s)
+  match s.ref with
+  | none => (none, s)
+  | some r =>
+    match s.q.enqueue v with
+    | .error _ => (none, s)
+    | .ok (_, q) =>
+      let s := { s with n := s.n + 1, q := q }
+      if s.n < s.window then (none, s)
+      else (some (mmd k s.chunkSize r (q.raw.filterMap id) s.pre), s)
 def Stream.reset (s : Stream α X) : Stream α X := { s with n := 0, ref := none, q := s.q.clear }
 
 end Frouros.MMD
